@@ -816,6 +816,40 @@ def _return_chain(body):
     return None
 
 
+def _prefix_chain(body):
+    """(straight-line prefix without returns or nested definitions, return chain as a conditional expression) for a
+    helper body `assignments..; if c1: return A; ...; return Z`; None for any other body"""
+    for k in range(len(body)):
+        pre = body[:k]
+        if any(isinstance(n, (ast.Return, ast.Yield, ast.YieldFrom, ast.Lambda) + FuncTypes) for s in pre for n in ast.walk(s)):
+            return None
+        if not all(isinstance(s, (ast.Assign, ast.AnnAssign, ast.AugAssign, ast.Expr)) for s in pre):
+            return None
+        chain = _return_chain(body[k:])
+        if chain is not None:
+            return pre, chain
+    return None
+
+
+def _none_test(st, name):
+    """'isnot' / 'is' when `st` is `if <name> is not None:` / `if <name> is None:`, else None"""
+    if not isinstance(st, ast.If):
+        return None
+    t = st.test
+    if isinstance(t, ast.Compare) and len(t.ops) == 1 and isinstance(t.left, ast.Name) and t.left.id == name and isinstance(t.comparators[0], ast.Constant) and t.comparators[0].value is None:
+        if isinstance(t.ops[0], ast.IsNot):
+            return "isnot"
+        if isinstance(t.ops[0], ast.Is):
+            return "is"
+    return None
+
+
+def _chain_leaves(e):
+    if isinstance(e, ast.IfExp):
+        return _chain_leaves(e.body) + _chain_leaves(e.orelse)
+    return [e]
+
+
 def _helper_shape(h):
     """('expr', E) for `return E`; ('stmts', body, E|None) when the only return is the last statement; None otherwise"""
     body = [s for s in h.body if not (isinstance(s, ast.Expr) and isinstance(s.value, ast.Constant))]
@@ -909,7 +943,10 @@ def inline_helpers(fn, resolve, depth=2):
 
     def expand_block(stmts, level, loop_body=False):
         out = []
+        skip = set()
         for idx_, st in enumerate(stmts):
+            if idx_ in skip:
+                continue
             # recurse into compound statements first
             for fld in ("body", "orelse", "finalbody"):
                 b = getattr(st, fld, None)
@@ -962,6 +999,45 @@ def inline_helpers(fn, resolve, depth=2):
                                 if level > 1:
                                     body = expand_block(body, level - 1)
                                 out += [at(p_, st) for p_ in pre] + body
+                                changed[0] = True
+                                continue
+                    if kind == "assign" and isinstance(st.targets[0], ast.Name) and (shape is None or (shape[0] == "expr" and len(shape) == 3)):
+                        # `v = helper(..)` with a helper that is assignments + a chain of returns: the chain becomes an
+                        # if-chain that assigns v.  Where some arm returns None and the next statement tests v against
+                        # None (the helper hands back "nothing" or a value), that statement is decided in the None arms
+                        # and repeated in the others, so that what it guards is read under the helper's conditions
+                        hb = [s_ for s_ in h.body if not (isinstance(s_, ast.Expr) and isinstance(s_.value, ast.Constant))]
+                        pc = _prefix_chain(hb) if not h.args.vararg and not h.args.kwarg else None
+                        tgt = st.targets[0].id
+                        nxt = stmts[idx_ + 1] if idx_ + 1 < len(stmts) else None
+                        nt = _none_test(nxt, tgt) if nxt is not None else None
+                        has_none = pc is not None and any(isinstance(l_, ast.Constant) and l_.value is None for l_ in _chain_leaves(pc[1]))
+                        if pc is not None and ((nt is not None and has_none) or shape is None):
+                            b = bind(h, call, recv)
+                            if b is not None:
+                                sub, pre = b
+                                prefix = [at(subst(s_, sub), st) for s_ in pc[0]]
+                                dup = nt is not None and has_none
+
+                                def leaf(e_):
+                                    asg = ast.Assign(targets=[ast.Name(id=tgt, ctx=ast.Store())], value=e_)
+                                    if not dup:
+                                        return [asg]
+                                    if isinstance(e_, ast.Constant) and e_.value is None:
+                                        return [asg, *clone(nxt.orelse if nt == "isnot" else nxt.body)]
+                                    return [asg, clone(nxt)]
+
+                                def arms(e_):
+                                    if isinstance(e_, ast.IfExp):
+                                        return [ast.If(test=e_.test, body=arms(e_.body), orelse=arms(e_.orelse))]
+                                    return leaf(e_)
+
+                                body = [at(x_, st) for x_ in arms(subst(pc[1], sub))]
+                                if level > 1:
+                                    body = expand_block(body, level - 1)
+                                out += [at(p_, st) for p_ in pre] + prefix + body
+                                if dup:
+                                    skip.add(idx_ + 1)
                                 changed[0] = True
                                 continue
                     if shape is not None and shape[0] == "expr":
@@ -1141,3 +1217,242 @@ def reach(node, resolve, depth=2):
                 nxt.append(body)
         frontier = nxt
     return out
+
+
+# ----------------------------------------------------------------------------- partial evaluation under assumptions
+_UNKNOWN = object()
+
+
+def _const_of(node):
+    if isinstance(node, ast.Constant):
+        return node.value
+    return _UNKNOWN
+
+
+def _is_global_ref(node, locs):
+    """a dotted name rooted in something that is not a local of the function: a module, a class, a global function -
+    never None"""
+    d = node
+    while isinstance(d, ast.Attribute):
+        d = d.value
+    return isinstance(node, (ast.Attribute, ast.Name)) and isinstance(d, ast.Name) and d.id not in locs
+
+
+class _Fold(ast.NodeTransformer):
+    def __init__(self, assume, env, locs):
+        self.assume, self.env, self.locs = assume, env, locs
+
+    def visit(self, node):
+        if isinstance(node, ast.expr):
+            try:
+                key = ast.unparse(node)
+            except Exception:  # noqa: BLE001
+                key = None
+            if key in self.assume:
+                return ast.copy_location(ast.Constant(self.assume[key]), node)
+        if isinstance(node, (ast.Lambda, ast.FunctionDef, ast.ClassDef)):
+            return node
+        return super().visit(node)
+
+    def visit_Name(self, node):
+        if isinstance(node.ctx, ast.Load) and node.id in self.env:
+            return clone(self.env[node.id])
+        return node
+
+    def visit_Compare(self, node):
+        self.generic_visit(node)
+        if len(node.ops) != 1:
+            return node
+        a, b, op = node.left, node.comparators[0], node.ops[0]
+        ca, cb = _const_of(a), _const_of(b)
+        val = _UNKNOWN
+        if ca is not _UNKNOWN and cb is not _UNKNOWN:
+            try:
+                if isinstance(op, ast.Eq):
+                    val = ca == cb
+                elif isinstance(op, ast.NotEq):
+                    val = ca != cb
+                elif isinstance(op, ast.Is):
+                    val = ca is cb if (ca is None or cb is None or isinstance(ca, bool)) else ca == cb
+                elif isinstance(op, ast.IsNot):
+                    val = ca is not cb if (ca is None or cb is None or isinstance(ca, bool)) else ca != cb
+            except Exception:  # noqa: BLE001
+                val = _UNKNOWN
+        elif ca is not _UNKNOWN and isinstance(op, (ast.In, ast.NotIn)) and isinstance(b, (ast.Tuple, ast.List, ast.Set)):
+            elts = [_const_of(e) for e in b.elts]
+            if all(e is not _UNKNOWN for e in elts):
+                val = (ca in elts) if isinstance(op, ast.In) else (ca not in elts)
+        elif isinstance(op, (ast.Is, ast.IsNot)) and ((cb is None and _is_global_ref(a, self.locs)) or (ca is None and _is_global_ref(b, self.locs))):
+            val = isinstance(op, ast.IsNot)
+        if val is _UNKNOWN:
+            return node
+        return ast.copy_location(ast.Constant(bool(val)), node)
+
+    def visit_UnaryOp(self, node):
+        self.generic_visit(node)
+        c = _const_of(node.operand)
+        if isinstance(node.op, ast.Not) and c is not _UNKNOWN:
+            return ast.copy_location(ast.Constant(not c), node)
+        return node
+
+    def visit_BoolOp(self, node):
+        self.generic_visit(node)
+        vals = []
+        for v in node.values:
+            c = _const_of(v)
+            if c is _UNKNOWN:
+                vals.append(v)
+                continue
+            if isinstance(node.op, ast.And):
+                if not c:
+                    # a falsy constant decides an `and` when everything before it was dropped as truthy
+                    return ast.copy_location(ast.Constant(c), node) if not vals else ast.copy_location(ast.BoolOp(ast.And(), [*vals, v]), node)
+            elif c:
+                return ast.copy_location(ast.Constant(c), node) if not vals else ast.copy_location(ast.BoolOp(ast.Or(), [*vals, v]), node)
+        if not vals:
+            return ast.copy_location(ast.Constant(isinstance(node.op, ast.And)), node)
+        if len(vals) == 1:
+            return vals[0]
+        node.values = vals
+        return node
+
+    def visit_IfExp(self, node):
+        node.test = self.visit(node.test)
+        c = _const_of(node.test)
+        if c is _UNKNOWN:
+            node.body = self.visit(node.body)
+            node.orelse = self.visit(node.orelse)
+            return node
+        return self.visit(node.body if c else node.orelse)
+
+    def visit_Call(self, node):
+        self.generic_visit(node)
+        # {k: v, ..}.get(K[, default]) with constant keys
+        f = node.func
+        if isinstance(f, ast.Attribute) and f.attr == "get" and isinstance(f.value, ast.Dict) and node.args and not node.keywords:
+            k = _const_of(node.args[0])
+            keys = [_const_of(x) if x is not None else _UNKNOWN for x in f.value.keys]
+            if k is not _UNKNOWN and all(x is not _UNKNOWN for x in keys):
+                for kk, vv in zip(keys, f.value.values):
+                    if kk == k:
+                        return vv
+                return node.args[1] if len(node.args) > 1 else ast.copy_location(ast.Constant(None), node)
+        return node
+
+    def visit_Subscript(self, node):
+        self.generic_visit(node)
+        if isinstance(node.value, ast.Dict) and isinstance(node.ctx, ast.Load):
+            k = _const_of(node.slice)
+            keys = [_const_of(x) if x is not None else _UNKNOWN for x in node.value.keys]
+            if k is not _UNKNOWN and all(x is not _UNKNOWN for x in keys):
+                for kk, vv in zip(keys, node.value.values):
+                    if kk == k:
+                        return vv
+        return node
+
+
+def _assigned_names(stmts):
+    out = set()
+    for st in stmts:
+        for n in ast.walk(st):
+            if isinstance(n, ast.Name) and isinstance(n.ctx, (ast.Store, ast.Del)):
+                out.add(n.id)
+    return out
+
+
+def _spec_body(stmts, assume, env, locs):
+    """(new statements, falls_through)"""
+    out = []
+    for st in stmts:
+        fold = _Fold(assume, env, locs)
+        if isinstance(st, ast.If):
+            test = fold.visit(clone(st.test))
+            c = _const_of(test)
+            if c is not _UNKNOWN:
+                body, through = _spec_body(st.body if c else st.orelse, assume, env, locs)
+                out.extend(body)
+                if not through:
+                    return out, False
+                continue
+            e1, e2 = dict(env), dict(env)
+            b1, t1 = _spec_body(st.body, assume, e1, locs)
+            b2, t2 = _spec_body(st.orelse, assume, e2, locs)
+            new = ast.copy_location(ast.If(test, b1 or [ast.Pass()], b2), st)
+            out.append(new)
+            for k in list(env):
+                if k in _assigned_names(st.body) | _assigned_names(st.orelse):
+                    env.pop(k, None)
+            if not t1 and not t2:
+                return out, False
+            continue
+        if isinstance(st, ast.Match):
+            subj = fold.visit(clone(st.subject))
+            c = _const_of(subj)
+            if c is not _UNKNOWN:
+                taken = None
+                decided = True
+                for case in st.cases:
+                    if case.guard is not None:
+                        decided = False
+                        break
+                    pats = case.pattern.patterns if isinstance(case.pattern, ast.MatchOr) else [case.pattern]
+                    hit = False
+                    for p in pats:
+                        if isinstance(p, ast.MatchValue) and _const_of(p.value) is not _UNKNOWN:
+                            hit = hit or _const_of(p.value) == c
+                        elif isinstance(p, ast.MatchSingleton):
+                            hit = hit or p.value is c
+                        elif isinstance(p, ast.MatchAs) and p.pattern is None and p.name is None:
+                            hit = True
+                        else:
+                            decided = False
+                    if not decided:
+                        break
+                    if hit:
+                        taken = case
+                        break
+                if decided:
+                    if taken is None:
+                        continue
+                    body, through = _spec_body(taken.body, assume, env, locs)
+                    out.extend(body)
+                    if not through:
+                        return out, False
+                    continue
+        if isinstance(st, (ast.For, ast.While, ast.Try, ast.With, ast.Match)):
+            # not specialised inside; whatever they assign is no longer known
+            for k in _assigned_names([st]):
+                env.pop(k, None)
+            out.append(fold.visit(clone(st)))
+            continue
+        new = fold.visit(clone(st))
+        if isinstance(new, ast.Assign) and len(new.targets) == 1 and isinstance(new.targets[0], ast.Name):
+            name = new.targets[0].id
+            env.pop(name, None)
+            v = new.value
+            if isinstance(v, ast.Constant) or _is_global_ref(v, locs):
+                env[name] = v
+        else:
+            for k in _assigned_names([new]):
+                env.pop(k, None)
+        out.append(new)
+        if isinstance(new, (ast.Return, ast.Raise, ast.Continue, ast.Break)):
+            return out, False
+    return out, True
+
+
+def specialise(fn, assume):
+    """`fn` partially evaluated under `assume` ({source text of an expression: Python constant}): the expressions are
+    replaced by the constants, comparisons / boolean operators / conditional expressions / `{..}.get(K)` over constants
+    are folded, locals bound to a constant or to a global reference are propagated in statement order, and `if` /
+    `match` statements whose test is decided are replaced by the arm taken; statements after a return are dropped.
+    What is left is what the function does for inputs that satisfy the assumptions, whether it was written as an
+    if-chain, match/case, a dispatch dictionary or a conditional expression."""
+    locs = set(local_names(fn))
+    a = fn.args
+    locs |= {x.arg for x in a.args + a.kwonlyargs + a.posonlyargs} | ({a.vararg.arg} if a.vararg else set()) | ({a.kwarg.arg} if a.kwarg else set())
+    body, _ = _spec_body(fn.body, assume, {}, locs)
+    new = clone(fn)
+    new.body = body or [ast.Pass()]
+    ast.fix_missing_locations(new)
+    return new
